@@ -248,8 +248,6 @@ class VolumeSubdivision(Logger):
         self.conn = None # connectivity
 
     def __enter__(self):
-        self.conn = self.mesh.connectivity
-        self.conn._compute_cell_adj()
         self.mesh = RawMeshData(self.mesh)
         self.mesh.face_corners.clear()
         self.mesh.cell_corners.clear()
@@ -300,8 +298,11 @@ class VolumeSubdivision(Logger):
         pcenter = sum([Vec(self.mesh.vertices[a]) for a in f ])/3 # barycenter
         self.mesh.vertices.append(pcenter)
         
-        for c in self.conn.face_to_cells(face_id):
-            iF = self.conn.in_cell_face_index(c,face_id)
+        # cells adjacent to the face are looked up in the *current* cell list:
+        # the connectivity of the input mesh is outdated as soon as one operation has been applied
+        adjacent_cells = [c for c,cell in enumerate(self.mesh.cells) if A in cell and B in cell and C in cell]
+        for c in adjacent_cells:
+            iF = [i for i,v in enumerate(self.mesh.cells[c]) if v not in (A,B,C)][0]
             new_cells = []
             for i in range(4):
                 if i==iF : continue # opposite point in tet from face
